@@ -3,6 +3,7 @@ package interp
 // Stubs and models for standard-library leaves reached from the library.
 
 import (
+	"fmt"
 	"go/token"
 	"go/types"
 
@@ -246,5 +247,118 @@ func init() {
 			return -f
 		}
 		return f
+	}
+}
+
+// ---- mini fmt.Sprintf: exactly the verbs the library uses (%s %d %Nd %c %02X %U %v) ----
+
+func fmtArg(v value) value {
+	if it, ok := v.(iface); ok {
+		return it.v
+	}
+	return v
+}
+
+func miniSprintf(format string, args []value) value {
+	var out symstr
+	ai := 0
+	next := func() value {
+		if ai < len(args) {
+			a := fmtArg(args[ai])
+			ai++
+			return a
+		}
+		return "%!(MISSING)"
+	}
+	for i := 0; i < len(format); i++ {
+		c := format[i]
+		if c != '%' {
+			out = append(out, c)
+			continue
+		}
+		i++
+		if i >= len(format) {
+			break
+		}
+		// flags/width
+		zero := false
+		width := 0
+		if format[i] == '0' {
+			zero = true
+			i++
+		}
+		for i < len(format) && format[i] >= '0' && format[i] <= '9' {
+			width = width*10 + int(format[i]-'0')
+			i++
+		}
+		verb := format[i]
+		var piece symstr
+		switch verb {
+		case '%':
+			piece = symstr{uint8('%')}
+		case 's', 'v':
+			a := next()
+			switch a := a.(type) {
+			case string:
+				piece = toSymStr(a)
+			case symstr:
+				piece = a
+			case []value:
+				piece = symstr(a)
+			default:
+				if isScalar(a) {
+					piece = toSymStr(fmt.Sprint(asInt64(a)))
+				} else {
+					piece = toSymStr("?")
+				}
+			}
+		case 'd':
+			piece = toSymStr(fmt.Sprint(asInt64(next())))
+		case 'X', 'x':
+			a := asInt64(next())
+			if verb == 'X' {
+				piece = toSymStr(fmt.Sprintf("%X", a))
+			} else {
+				piece = toSymStr(fmt.Sprintf("%x", a))
+			}
+		case 'c':
+			a := next()
+			if sa, ok := a.(sym); ok {
+				piece = symstr(symRuneEncode(sym{Zext(sa.t, 32), types.Int32}))
+			} else {
+				piece = toSymStr(string(rune(asInt64(a))))
+			}
+		case 'U':
+			piece = toSymStr(fmt.Sprintf("%U", rune(asInt64(next()))))
+		default:
+			piece = toSymStr("%!" + string(verb))
+			next()
+		}
+		for len(piece) < width {
+			pad := uint8(' ')
+			if zero {
+				pad = '0'
+			}
+			piece = append(symstr{pad}, piece...)
+		}
+		out = append(out, piece...)
+	}
+	return normStr(out)
+}
+
+func init() {
+	stubOverrides["fmt.Sprintf"] = func(fr *frame, args []value) (value, bool) {
+		if Params["realfmt"] == 0 {
+			return nil, false
+		}
+		f, ok := args[0].(string)
+		if !ok {
+			panic(engineError{"Sprintf with symbolic format"})
+		}
+		var va []value
+		if len(args) > 1 && args[1] != nil {
+			va = args[1].([]value)
+		}
+		return miniSprintf(f, va), true
 	}
 }
